@@ -153,6 +153,7 @@ func runC09(x *Ctx) {
 	nilCursors(x, fns)
 	tableCalls(x, fns)
 	namedRefusals(x)
+	gettersNeverNilNil(x)
 	loopsRule(x, fns)
 	recursionRules(x, fns, R)
 	allocations(x, fns)
